@@ -57,6 +57,7 @@ def plan(tier, seed):
     units += [("ps-plain", tier)] + [("ps-far", tier, i) for i in range(8)]
     units += [("ps-multi", tier, i) for i in range(len(MULTI_INV))]
     units += [("stream", u) for u in streams.plan(tier, fams=STREAM_FAMS)]
+    units += core.interp_axis([("ps-plain", tier), ("ps-multi", tier, 0), ("ps-multi", tier, 1), ("ps-far", tier, 0)])
     return units
 
 
